@@ -49,9 +49,14 @@ package conn
 //@   ensures !isnil(result1) ==> result0.af == 0
 //@   ensures AddrWF(result0)
 
+// Comparison of two address-ports with IPv4-mapped IPv6 addresses treated as IPv4 (unsafe overlay: trusted,
+// as an uninterpreted relation of its two arguments).
+//@ uninterp mappedEq(l netip.AddrPort, r netip.AddrPort) bool
+
 //@ func AddrPortMappedEqual
 //@   trusted
 //@   modifies nothing
+//@   ensures result == mappedEq(l, r)
 
 // The socket-option caches are maps keyed by a composite struct; their contents are outside the modelled
 // state (no function under contract reads them), so the cache write is invisible to every contract.
